@@ -197,6 +197,26 @@ func buildScenario(a loadArgs) (*scenario, string) {
 		put(j(proj, a.Dir, a.Dir2, "base.yaml"), map[string]any{"services": map[string]any{"b": svc}})
 		base, relbase = a.Wd+"/"+a.Dir+"/"+a.Dir2, j(a.Dir, a.Dir2)
 		stages = []string{j(a.Dir2), j(a.Dir)}
+	case "include3":
+		// round 5: depth 3 (theorem include_chain_origin holds for any depth; the tie was at depth ≤ 2)
+		d3 := "l3"
+		sc.steps = []map[string]any{{"incl": j(a.Dir, "inc.yaml")}, {"incl": j(a.Dir2, "inc2.yaml")}, {"incl": j(d3, "inc3.yaml")}}
+		put(mainFile, map[string]any{"include": []any{j(a.Dir, "inc.yaml")}, "services": map[string]any{"main": map[string]any{"image": "m"}}})
+		put(j(proj, a.Dir, "inc.yaml"), map[string]any{"include": []any{map[string]any{"path": j(a.Dir2, "inc2.yaml")}}, "services": map[string]any{"mid": map[string]any{"image": "m"}}})
+		put(j(proj, a.Dir, a.Dir2, "inc2.yaml"), map[string]any{"include": []any{j(d3, "inc3.yaml")}, "services": map[string]any{"mid2": map[string]any{"image": "m"}}})
+		put(j(proj, a.Dir, a.Dir2, d3, "inc3.yaml"), merge(map[string]any{"services": map[string]any{"svc": svc}}, top))
+		base, relbase = a.Wd+"/"+a.Dir+"/"+a.Dir2+"/"+d3, j(a.Dir, a.Dir2, d3)
+		stages = []string{d3, j(a.Dir2), j(a.Dir)}
+	case "include2-extends":
+		// round 5: extends inside the innermost of two included files (include_chain_extends_origin, n = 2)
+		e3 := "e3"
+		sc.steps = []map[string]any{{"incl": j(a.Dir, "inc.yaml")}, {"incl": j(a.Dir2, "inc2.yaml")}, {"ext": j(e3, "base.yaml")}}
+		put(mainFile, map[string]any{"include": []any{j(a.Dir, "inc.yaml")}, "services": map[string]any{"main": map[string]any{"image": "m"}}})
+		put(j(proj, a.Dir, "inc.yaml"), map[string]any{"include": []any{map[string]any{"path": j(a.Dir2, "inc2.yaml")}}, "services": map[string]any{"mid": map[string]any{"image": "m"}}})
+		put(j(proj, a.Dir, a.Dir2, "inc2.yaml"), map[string]any{"services": map[string]any{"svc": map[string]any{"extends": map[string]any{"file": j(e3, "base.yaml"), "service": "b"}}}})
+		put(j(proj, a.Dir, a.Dir2, e3, "base.yaml"), map[string]any{"services": map[string]any{"b": svc}})
+		base, relbase = a.Wd+"/"+a.Dir+"/"+a.Dir2+"/"+e3, j(a.Dir, a.Dir2, e3)
+		stages = []string{e3, j(a.Dir2), j(a.Dir)}
 	default:
 		panic("unknown origin " + a.Origin)
 	}
@@ -289,6 +309,9 @@ func realLoad(raw json.RawMessage) any {
 	}
 	home := filepath.Join(root, "home")
 	os.MkdirAll(home, 0o755)
+	// the process runs somewhere else, in a directory whose entries have the same names as the project's (all of them
+	// symbolic links to a decoy): no attribute may be looked up from there
+	defer c12DecoyCwd(filepath.Join(root, a.Wd))()
 	if old, had := os.LookupEnv("HOME"); had {
 		defer os.Setenv("HOME", old)
 	} else {
@@ -427,20 +450,25 @@ func init() {
 			if a.Off {
 				mode = "off"
 			}
-			// correspondence: the Lean model of the origin logic (Model/PathsOrigin.lean: loaderDir, includeLevel,
+			// correspondence (reported only when the oracle below finds no failing input — a failure outranks a broken tie): the Lean model of the origin logic (Model/PathsOrigin.lean: loaderDir, includeLevel,
 			// extendsLevel, staged resolution) predicts the value in the loaded project
+			var tie *core.Verdict
 			if r.Err == "" {
 				for i, o := range r.Obs {
 					if m := d[i].Model; m != nil {
 						got, _ := o.Got.(string)
 						if m.Ok == nil || o.Got == nil || *m.Ok != got {
-							return core.Disagree(fmt.Sprintf("Paths.predict ≠ loader: %s=%q from %s: project has %v, the model predicts %v %s", o.Name, o.S, a.Origin, o.Got, m.Ok, m.Err))
+							tie = core.Disagree(fmt.Sprintf("Paths.predict ≠ loader: %s=%q from %s: project has %v, the model predicts %v %s", o.Name, o.S, a.Origin, o.Got, m.Ok, m.Err))
+							break
 						}
 					}
 				}
 			}
 			for i, o := range r.Obs {
 				if d[i].Want == nil {
+					if tie != nil {
+						return tie
+					}
 					return core.Skip("the property does not say")
 				}
 				want := *d[i].Want
@@ -472,7 +500,7 @@ func init() {
 					}
 				}
 			}
-			return nil
+			return tie
 		},
 	})
 }
@@ -503,7 +531,7 @@ var c12LoadAttrs = []string{"build.context", "build.additional_contexts", "env_f
 var c12LoadShapes = []string{"./x", "x/y", "../x", ".", "/vabs", "~/x", "C:\\x", "\\\\srv\\share\\d", "https://h/x.git", "git@h:x", "docker-image://img",
 	"..", "x/../..", "a//b/", "C:/x", "github.com/o/r", "./github.com/o/r", "./~", "~", ".hidden", "./C:/x", "é/x", "../../x"}
 
-var c12Origins = []string{"main", "override", "include1", "include-pd", "include2", "extends", "extends2", "include-extends", "include-multi", "extends-chain"}
+var c12Origins = []string{"main", "override", "include1", "include-pd", "include2", "extends", "extends2", "include-extends", "include-multi", "extends-chain", "include3", "include2-extends"}
 var c12PlainDirs = []string{"sub", "sub/deep", "../sib", "."}
 var c12PlainDirs2 = []string{"sub", "sub/deep", "../sib2"}
 var c12OddDirs = []string{"~", "github.com/o", "git@h", "C:", "~x/y"}
@@ -532,6 +560,7 @@ func runC12Loads(ctx *core.Ctx) {
 		}
 		ctx.Add("c12.load", a)
 		ctx.Count("load:" + tag + ":" + originClass(a.Origin))
+		ctx.Count("load-origin:" + a.Origin)
 	}
 	// exhaustive over attribute × origin × written value, plain directories rotated (every origin sees every plain dir)
 	k := 0
